@@ -375,7 +375,7 @@ func deBruijnish(n int) string {
 func init() {
 	eng.Register(&eng.Check{
 		ID: "C03", Level: "exploration", Pre: WriteCorpusCache,
-		Rule: "every token string over Σ_t up to the phase length, every sequence of formatting-fragment statements (92 statements × 3 separators) up to the phase length, the corpus and its single-token neighbours; inputs that parse with errors are skipped (trivial); non-trivial = error-free with at least one node; oracle: Format(Parse(x)) parses without error and is a fixpoint of Format∘Parse",
+		Rule: "every token string over Σ_t up to the phase length, every sequence of formatting-fragment statements (92 statements × 3 separators) up to the phase length, every statement at every nesting depth 0..24 (multi-line maps, one-line maps, arrays), the corpus and its single-token neighbours; inputs that parse with errors are skipped (trivial); non-trivial = error-free with at least one node; oracle: Format(Parse(x)) parses without error and is a fixpoint of Format∘Parse",
 		Oracles: map[string]eng.Oracle{"idem": c03Oracle},
 		Run: func(w *eng.W) {
 			for k := 1; k <= w.Pick(3, 4); k++ {
@@ -402,6 +402,19 @@ func init() {
 				Seqs(c03Stmts, 2, func(s []string) {
 					w.Eval("idem", "k: {\n"+strings.Join(s, "\n")+"\n}")
 				})
+			})
+			// the formatter derives indentation from the nesting depth: every statement at every depth 0..24, in maps written
+			// on one line and over several lines, and inside arrays
+			w.Phase("stmts x depth<=24", func() {
+				for _, st := range c03Stmts {
+					for d := 0; d <= 24; d++ {
+						w.Eval("idem", strings.Repeat("k: {\n", d)+st+strings.Repeat("\n}", d))
+						w.Eval("idem", strings.Repeat("k: {", d)+st+strings.Repeat("}", d))
+						if d > 0 {
+							w.Eval("idem", "k: "+strings.Repeat("[", d)+st+strings.Repeat("]", d))
+						}
+					}
+				}
 			})
 			w.Phase("corpus+single-token-neighbours", func() {
 				for _, src := range Corpus() {
